@@ -1,0 +1,65 @@
+//go:build verif
+
+package fox
+
+import (
+	"fmt"
+	"strings"
+	"sync/atomic"
+)
+
+// Verification hooks, only compiled with the verif build tag. They add observability for the runtime
+// monitors under /verif and never change the behaviour of the router.
+
+var verifCb atomic.Pointer[func(string)]
+
+// VerifSetPoint installs the callback invoked at every verifPoint (nil removes it).
+func VerifSetPoint(f func(string)) {
+	if f == nil {
+		verifCb.Store(nil)
+		return
+	}
+	verifCb.Store(&f)
+}
+
+func verifPoint(name string) {
+	if f := verifCb.Load(); f != nil {
+		(*f)(name)
+	}
+}
+
+// VerifFingerprint returns a canonical dump of the tree reachable from the iterator's snapshot: per node the key,
+// the children order, the first-byte index, the param/catch-all child indexes, the parsed wildcards, the inode chain
+// and the leaf pattern with the identity of its route. Node addresses are not part of it.
+func VerifFingerprint(it Iter) string {
+	var sb strings.Builder
+	fmt.Fprintf(&sb, "depth=%d\n", it.maxDepth)
+	for _, r := range it.root {
+		verifDump(&sb, r, 0)
+	}
+	return sb.String()
+}
+
+// VerifTreeInfo returns the size, maxParams and depth recorded for the tree currently published by the router.
+func VerifTreeInfo(fox *Router) (size int, maxParams, depth uint32) {
+	t := fox.getRoot()
+	return t.size, t.maxParams, t.depth
+}
+
+func verifDump(sb *strings.Builder, n *node, indent int) {
+	sb.WriteString(strings.Repeat(" ", indent))
+	fmt.Fprintf(sb, "%q keys=%q p=%d w=%d", n.key, string(n.childKeys), n.paramChildIndex, n.wildcardChildIndex)
+	for _, p := range n.params {
+		fmt.Fprintf(sb, " [%s %d %t]", p.key, p.end, p.catchAll)
+	}
+	for in := n.inode; in != nil; in = in.inode {
+		fmt.Fprintf(sb, " inode=%q/%d", in.key, len(in.children))
+	}
+	if n.route != nil {
+		fmt.Fprintf(sb, " leaf=%q@%p", n.route.pattern, n.route)
+	}
+	sb.WriteByte('\n')
+	for _, c := range n.children {
+		verifDump(sb, c, indent+1)
+	}
+}
